@@ -36,4 +36,15 @@ def cross (norb a b : Nat) : Nat → Bool
 /-- the sign of ι on determinant `(a, b)` -/
 def embedSign (norb a b : Nat) : Bool := cross norb a b norb ^^ tri a norb ^^ tri b norb
 
+/-- number-broken wavefunctions store the beta strings particle-hole inverted by a plain reversal of the beta axis
+    (no signs); relative to ι this leaves the extra factor `Π_{p ∈ b} (-1)^(norb-1-p)` on determinant `(a, b)` -/
+def nbTwistAux (norb b : Nat) : Nat → Bool
+  | 0 => false
+  | p+1 => nbTwistAux norb b p ^^ (b.testBit p && decide ((norb - 1 - p) % 2 = 1))
+
+def nbTwist (norb b : Nat) : Bool := nbTwistAux norb b norb
+
+/-- the embedding used by number-broken (Sz-conserving) wavefunctions -/
+def embedSignNB (norb a b : Nat) : Bool := embedSign norb a b ^^ nbTwist norb b
+
 end Fock
